@@ -538,6 +538,28 @@ func (g *Gen) nodeTx() {
 	w.QueueNode(src)
 }
 
+// after: an empty block run through VMExecutor.after — mostly the next height, sometimes jumping to (just
+// before / exactly) the next reward height, where everything escrowed so far is paid out.
+func (g *Gen) after() {
+	w := g.w
+	rb := common.GetRewardBlocks()
+	h := w.height + 1
+	next := ((h + rb - 1) / rb) * rb
+	switch g.r.Intn(4) {
+	case 0:
+		h = next
+	case 1:
+		if next > h+1 {
+			h = next - 1
+		}
+	}
+	castor := []byte{0xca, 0x57}
+	if len(w.miners) > 0 && g.r.Bool() {
+		castor = w.miners[g.r.Intn(len(w.miners))].id
+	}
+	w.After(h, castor)
+}
+
 func (g *Gen) refund() {
 	k := g.r.Intn(4)
 	var l [][2]interface{}
